@@ -1,4 +1,5 @@
 import CppUModel.Proofs.Failable
+import CppUModel.Spec.FailableGen
 /-!
 # C15 — injected out-of-memory hits exactly the designated allocations
 
@@ -395,6 +396,406 @@ theorem designate_first_at_location (h : List Op) (file : String) (line : Nat) :
     rw [epoch_snoc]; simp
   exact ⟨epoch h, 1, [], by rw [he], by simp [allocsAt_nil]⟩
 
+/-! ## regenerated code
+
+`Gen/FailableCode.lean` is translated from the function bodies of `/repo` on every run
+(`translate/extract_failable_code.py`).  Each regenerated definition is proved equal to the hand model the
+theorems above are about; the `regenerated_…` theorems then restate the property for histories executed
+by the regenerated definitions themselves. -/
+
+
+theorem gen_shouldFail_eq (nd : Node) (cur : Nat) (file : String) (line : Nat) :
+    Gen.Failable.shouldFail nd cur file line = nd.visit cur file line := by
+  unfold Gen.Failable.shouldFail Node.visit
+  -- `rfl` for the source as it is; the fallback absorbs reordered / mirrored comparisons
+  cases nd.file with
+  | none => first | rfl | simp [eq_comm]
+  | some f =>
+    first
+    | rfl
+    | (simp only []
+       by_cases h1 : file = f <;> by_cases h2 : line = nd.line <;> simp [h1, h2, eq_comm, and_comm] <;> simp_all [eq_comm])
+
+theorem gen_node_number (raw : Node) (n : Int) :
+    Gen.Failable.nodeFailAtAllocNumber raw n = { id := raw.id, number := n, actual := 0, file := none, line := 0 } := rfl
+
+theorem gen_node_location (raw : Node) (n : Int) (file : String) (line : Nat) :
+    Gen.Failable.nodeFailNthAllocAt raw n file line =
+      { id := raw.id, number := n, actual := 0, file := some file, line := line } := rfl
+
+theorem gen_init_eq : Gen.Failable.init = init := rfl
+
+theorem gen_failAllocNumber_eq (raw : Node) (s : State) (n : Int) :
+    Gen.Failable.failAllocNumber raw s n = failAllocNumber s n := rfl
+
+theorem gen_failNthAllocAt_eq (raw : Node) (s : State) (n : Int) (file : String) (line : Nat) :
+    Gen.Failable.failNthAllocAt raw s n file line = failNthAllocAt s n file line := rfl
+
+theorem gen_walk_eq (s : State) (file : String) (line : Nat) : ∀ nodes : List Node,
+    Gen.Failable.walk s file line nodes = walk s.current file line nodes
+  | [] => rfl
+  | nd :: rest => by
+    have ih := gen_walk_eq s file line rest
+    unfold Gen.Failable.walk walk
+    simp only [Gen.Failable.allocVisit, gen_shouldFail_eq, ih]
+
+theorem gen_allocMemory_eq (s : State) (file : String) (line : Nat) :
+    Gen.Failable.allocMemory s file line = (allocState s file line, allocFired s file line, allocFails s file line) := by
+  simp only [Gen.Failable.allocMemory, gen_walk_eq, Gen.Failable.allocPre, allocState, allocFired, allocFails]
+
+theorem gen_check_eq (s : State) : Gen.Failable.check s = check s := by
+  unfold Gen.Failable.check check
+  cases s.nodes <;> rfl
+
+theorem gen_clear_eq (s : State) : Gen.Failable.clear s = clear s ∧ Gen.Failable.clearFreed s = clearFreed s := ⟨rfl, rfl⟩
+
+
+theorem gen_cinit_eq : Gen.Failable.cinit = cinit := rfl
+
+theorem gen_setOutOfMemory_eq (c : CState) : Gen.Failable.setOutOfMemory c = setOutOfMemory c := by
+  unfold Gen.Failable.setOutOfMemory setOutOfMemory
+  cases h : c.orig <;> simp
+
+theorem gen_setNotOutOfMemory_eq (c : CState) : Gen.Failable.setNotOutOfMemory c = setNotOutOfMemory c := rfl
+
+theorem gen_setCountdown_eq (c : CState) (n : Int) : Gen.Failable.setCountdown c n = setCountdown c n := by
+  unfold Gen.Failable.setCountdown setCountdown
+  simp only [gen_setOutOfMemory_eq]
+
+theorem gen_countdown_eq (c : CState) : Gen.Failable.countdown c = countdown c := by
+  unfold Gen.Failable.countdown countdown
+  simp only [gen_setOutOfMemory_eq]
+  -- closed here for the source as it is; the fallback absorbs merged / reordered early returns
+  try (by_cases h1 : c.counter ≤ Gen.Failable.noCountdown <;> by_cases h2 : c.counter = Gen.Failable.outOfMemory <;>
+        by_cases h3 : c.counter - 1 = Gen.Failable.outOfMemory <;> simp [h1, h2, h3])
+
+theorem gen_mallocState_eq (c : CState) :
+    Gen.Failable.mallocState c = mallocState c ∧ Gen.Failable.mallocNull c = mallocNull c := by
+  unfold Gen.Failable.mallocNull Gen.Failable.mallocState mallocState mallocNull
+  simp only [gen_countdown_eq, and_self]
+  -- closed here for the source as it is; the fallback absorbs `malloc_count++` in front of `countdown()`
+  try (simp only [countdown_count_comm, countdown_count]; simp)
+
+theorem gen_callocOverflows_eq (num size : Nat) : Gen.Failable.callocOverflows num size = callocOverflows num size := rfl
+
+theorem gen_strdup_eq (c : CState) (str : List UInt8) (n : Nat) :
+    Gen.Failable.strdup c str = strdup c str ∧ Gen.Failable.strndup c str n = strndup c str n := by
+  unfold Gen.Failable.strdup Gen.Failable.strndup strdup strndup
+  simp only [(gen_mallocState_eq c).1, (gen_mallocState_eq c).2]
+  have h1 : 1 + str.length - 1 = str.length := by omega
+  have h2 : List.take ((if str.length < n then str.length else n) + 1 - 1) str = List.take n str := by
+    split
+    · rw [Nat.add_sub_cancel, List.take_length, List.take_of_length_le (by omega)]
+    · rw [Nat.add_sub_cancel]
+  rw [h1, List.take_length, h2]
+  exact ⟨rfl, rfl⟩
+
+theorem gen_calloc_eq (c : CState) (num size : Nat) : Gen.Failable.calloc c num size = calloc c num size := by
+  unfold Gen.Failable.calloc calloc
+  simp only [(gen_mallocState_eq c).1, (gen_mallocState_eq c).2, gen_callocOverflows_eq]
+
+theorem gen_count_eq (c : CState) :
+    Gen.Failable.countReset c = { c with count := 0 } ∧ Gen.Failable.getCount c = (c, c.count) ∧
+    Gen.Failable.reallocState c = c ∧ Gen.Failable.freeState c = c := ⟨rfl, rfl, rfl, rfl⟩
+
+theorem genStep_eq (raw : Node) (s : State) (op : Op) : genStep raw s op = step s op := by
+  cases op <;> simp [genStep, step, gen_failAllocNumber_eq, gen_failNthAllocAt_eq, gen_allocMemory_eq, (gen_clear_eq s).1]
+
+theorem genRun_eq (raw : Node) : ∀ (h : List Op) (s : State), genRun raw s h = run s h
+  | [], _ => rfl
+  | op :: h, s => by
+    have ih := genRun_eq raw h (step s op)
+    simp only [genRun, run, List.foldl_cons, genStep_eq] at ih ⊢
+    exact ih
+
+theorem genCstep_eq (c : CState) (op : COp) : genCstep c op = cstep c op := by
+  cases op with
+  | strdup s => simp only [genCstep, cstep, (gen_strdup_eq c s 0).1]
+  | strndup s n => simp only [genCstep, cstep, (gen_strdup_eq c s n).2]
+  | _ => simp [genCstep, cstep, gen_setCountdown_eq, gen_setOutOfMemory_eq, gen_setNotOutOfMemory_eq,
+      (gen_mallocState_eq c).1, gen_calloc_eq, (gen_count_eq c)]
+
+theorem genCrun_eq : ∀ (ops : List COp) (c : CState), genCrun c ops = crun c ops
+  | [], _ => rfl
+  | op :: ops, c => by
+    have ih := genCrun_eq ops (cstep c op)
+    simp only [genCrun, crun, List.foldl_cons, genCstep_eq] at ih ⊢
+    exact ih
+
+theorem genAfterMallocs_eq (c : CState) : ∀ k, genAfterMallocs c k = afterMallocs c k
+  | 0 => rfl
+  | k + 1 => by simp only [genAfterMallocs, afterMallocs, genAfterMallocs_eq c k, (gen_mallocState_eq _).1]
+
+
+/-- a fresh node is fully initialised: nothing of the uninitialised memory `raw` survives except the
+    (ghost) identity of the node -/
+theorem fresh_node_fully_initialised (raw₁ raw₂ : Node) (h : raw₁.id = raw₂.id) (n : Int) (file : String) (line : Nat) :
+    Gen.Failable.nodeFailAtAllocNumber raw₁ n = Gen.Failable.nodeFailAtAllocNumber raw₂ n ∧
+    Gen.Failable.nodeFailNthAllocAt raw₁ n file line = Gen.Failable.nodeFailNthAllocAt raw₂ n file line := by
+  simp [gen_node_number, gen_node_location, h]
+
+/-- **Exactly the designated allocations fail — for the regenerated code.**  After any history executed by the
+    definitions translated from the current source, `alloc_memory(size, file, line)` returns NULL iff the
+    allocation is designated. -/
+theorem regenerated_fails_iff_designated (raw : Node) (h : List Op) (file : String) (line : Nat) :
+    genFails (genRun raw Gen.Failable.init h) file line = true ↔ Designated h file line := by
+  rw [genFails, gen_allocMemory_eq, genRun_eq, gen_init_eq]
+  exact fails_iff_designated h file line
+
+/-- the regenerated `checkAllFailedAllocsWereDone` reports the most recent designation that never happened,
+    and nothing iff there is none -/
+theorem regenerated_check_reports_unfired (raw : Node) (h : List Op) :
+    Gen.Failable.check (genRun raw Gen.Failable.init h) = (match (unfired h).getLast? with
+      | none => .ok
+      | some d => reportOf d) ∧
+    (Gen.Failable.check (genRun raw Gen.Failable.init h) = .ok ↔ unfired h = []) := by
+  rw [gen_check_eq, genRun_eq, gen_init_eq]
+  exact ⟨unfired_reported_by_check h, check_ok_iff h⟩
+
+/-- the regenerated `clearFailedAllocs` restores the behaviour of a fresh allocator -/
+theorem regenerated_clear_restores_normal (raw : Node) (h e : List Op) (file : String) (line : Nat) :
+    genFails (genRun raw Gen.Failable.init (h ++ Op.clear :: e)) file line =
+      genFails (genRun raw Gen.Failable.init e) file line := by
+  simp only [genFails, gen_allocMemory_eq, genRun_eq, gen_init_eq]
+  exact clear_restores_normal h e file line
+
+/-- the countdown theorem for the regenerated C-level functions -/
+theorem regenerated_kth_malloc_fails_iff (n : Int) (k : Nat) :
+    Gen.Failable.mallocNull (genAfterMallocs (Gen.Failable.setCountdown Gen.Failable.cinit n) k) = true ↔
+      (0 ≤ n ∧ n ≤ ((k + 1 : Nat) : Int)) := by
+  rw [(gen_mallocState_eq _).2, genAfterMallocs_eq, gen_setCountdown_eq, gen_cinit_eq]
+  exact kth_malloc_fails_iff n k
+
+/-- … and `cpputest_malloc_set_not_out_of_memory` ends the simulation after any history of regenerated calls -/
+theorem regenerated_not_out_of_memory_restores (ops : List COp) (j : Nat) :
+    Gen.Failable.mallocNull (genAfterMallocs (Gen.Failable.setNotOutOfMemory (genCrun Gen.Failable.cinit ops)) j) = false := by
+  rw [(gen_mallocState_eq _).2, genAfterMallocs_eq, gen_setNotOutOfMemory_eq, genCrun_eq, gen_cinit_eq]
+  exact not_out_of_memory_restores ops j
+
+/-- `malloc_count` of the regenerated code is the number of allocating calls since the last reset -/
+theorem regenerated_malloc_count (ops : List COp) :
+    (Gen.Failable.getCount (genCrun Gen.Failable.cinit ops)).2 = expectedCountFrom 0 ops := by
+  rw [(gen_count_eq _).2.1, genCrun_eq, gen_cinit_eq]
+  exact malloc_count_is_number_of_allocating_calls ops cinit
+
+/-- regenerated strdup / strndup / calloc return NULL exactly when their allocation fails (calloc also when the
+    regenerated overflow guard fires) -/
+theorem regenerated_strdup_calloc_null_iff (c : CState) (str : List UInt8) (n num size : Nat) :
+    ((Gen.Failable.strdup c str).2 = none ↔ Gen.Failable.mallocNull c = true) ∧
+    ((Gen.Failable.strndup c str n).2 = none ↔ Gen.Failable.mallocNull c = true) ∧
+    ((Gen.Failable.calloc c num size).2 = none ↔
+      (Gen.Failable.callocOverflows num size = true ∨ Gen.Failable.mallocNull c = true)) := by
+  rw [(gen_strdup_eq c str n).1, (gen_strdup_eq c str n).2, gen_calloc_eq, (gen_mallocState_eq c).2, gen_callocOverflows_eq]
+  exact ⟨(strdup_null_iff c str).1, (strndup_null_iff c str n).1, (calloc_null_iff c num size).1⟩
+
+/-- the regenerated overflow guard is the mathematical one: the product does not fit 64 bits -/
+theorem regenerated_calloc_guard_iff (num size : Nat) :
+    Gen.Failable.callocOverflows num size = true ↔ num * size ≥ 2 ^ 64 := by
+  unfold Gen.Failable.callocOverflows
+  rw [decide_eq_true_iff]
+  constructor
+  · rintro ⟨h0, h1⟩
+    have hs : 0 < size := Nat.pos_of_ne_zero h0
+    have := (Nat.div_lt_iff_lt_mul hs).mp h1
+    omega
+  · intro h
+    have h0 : size ≠ 0 := by rintro rfl; simp at h
+    refine ⟨h0, ?_⟩
+    have hs : 0 < size := Nat.pos_of_ne_zero h0
+    apply (Nat.div_lt_iff_lt_mul hs).mpr
+    omega
+
+/-! ## the C-level API on top of an installed `FailableMemoryAllocator` -/
+
+theorem genMallocOver_eq (b : Both) (file : String) (line : Nat) :
+    genMallocOver b file line = mallocOver b file line := by
+  unfold genMallocOver mallocOver
+  simp only [(gen_mallocState_eq b.c).1, gen_allocMemory_eq]
+  cases (mallocState b.c).cur <;> rfl
+
+theorem genOver_eq (b : Both) (str : List UInt8) (n num size : Nat) (file : String) (line : Nat) :
+    genStrdupOver b str file line = strdupOver b str file line ∧
+    genStrndupOver b str n file line = strndupOver b str n file line ∧
+    genCallocOver b num size file line = callocOver b num size file line := by
+  simp only [genStrdupOver, genStrndupOver, genCallocOver, strdupOver, strndupOver, callocOver, genMallocOver_eq,
+    gen_callocOverflows_eq, and_self]
+
+/-- **Which allocations of the malloc path fail**: exactly those that the simulated out-of-memory refuses, and those
+    that reach an installed failable allocator and are refused by it. -/
+theorem mallocOver_null_iff (b : Both) (file : String) (line : Nat) :
+    (mallocOver b file line).isNull = true ↔
+      (mallocNull b.c = true ∨ ((mallocState b.c).cur = .failable ∧ allocFails b.fa file line = true)) := by
+  unfold mallocOver mallocNull
+  have hc : (countdown b.c).cur = (mallocState b.c).cur := rfl
+  rw [hc]
+  cases h : (mallocState b.c).cur <;> simp
+
+/-- an allocation refused by the simulated out-of-memory never reaches the failable allocator: no designation is
+    consumed, no index moves -/
+theorem out_of_memory_hides_allocation (b : Both) (file : String) (line : Nat) (h : mallocNull b.c = true) :
+    (mallocOver b file line).st.fa = b.fa ∧ (mallocOver b file line).fired = [] ∧
+    (mallocOver b file line).st.c = mallocState b.c := by
+  have h' : (mallocState b.c).cur = .null := by
+    have : (countdown b.c).cur = .null := by simpa [mallocNull] using h
+    exact this
+  unfold mallocOver
+  rw [h']
+  exact ⟨rfl, rfl, rfl⟩
+
+/-- an allocation that reaches the installed failable allocator is decided by it alone, at the file and line the
+    caller gave -/
+theorem mallocOver_reaches_failable (b : Both) (file : String) (line : Nat) (h : (mallocState b.c).cur = .failable) :
+    (mallocOver b file line).st.fa = allocState b.fa file line ∧
+    (mallocOver b file line).fired = allocFired b.fa file line ∧
+    (mallocOver b file line).isNull = allocFails b.fa file line := by
+  unfold mallocOver
+  rw [h]
+  exact ⟨rfl, rfl, rfl⟩
+
+/-- **strdup / strndup / calloc return NULL exactly when the allocation they rely on fails** — whichever mechanism
+    makes it fail (calloc also when its product overflows, in which case nothing is asked) -/
+theorem over_null_iff (b : Both) (str : List UInt8) (n num size : Nat) (file : String) (line : Nat) :
+    ((strdupOver b str file line).2 = none ↔ (mallocOver b file line).isNull = true) ∧
+    ((strndupOver b str n file line).2 = none ↔ (mallocOver b file line).isNull = true) ∧
+    ((callocOver b num size file line).2 = none ↔
+      (callocOverflows num size = true ∨ (mallocOver b file line).isNull = true)) ∧
+    (callocOverflows num size = true → (callocOver b num size file line).1.st = b) := by
+  unfold strdupOver strndupOver callocOver
+  cases h1 : callocOverflows num size <;> cases h2 : (mallocOver b file line).isNull <;> simp
+
+/-- end to end: a failable allocator installed as the malloc allocator, no out-of-memory simulated; after ANY
+    history `h` of the allocator, `strdup` at `(file, line)` returns NULL iff that allocation is designated -/
+theorem strdup_null_iff_designated (c : CState) (hc : c.counter = Gen.Failable.noCountdown) (hcur : c.cur = .failable)
+    (h : List Op) (str : List UInt8) (n num size : Nat) (hov : callocOverflows num size = false) (file : String) (line : Nat) :
+    ((strdupOver { c := c, fa := run init h } str file line).2 = none ↔ Designated h file line) ∧
+    ((strndupOver { c := c, fa := run init h } str n file line).2 = none ↔ Designated h file line) ∧
+    ((callocOver { c := c, fa := run init h } num size file line).2 = none ↔ Designated h file line) := by
+  have hid : countdown c = c := countdown_idle c (by rw [hc]; simp [Gen.Failable.noCountdown])
+  have hms : (mallocState c).cur = .failable := by simp [mallocState, hid, hcur]
+  have hnn : mallocNull c = false := by simp [mallocNull, hid, hcur]
+  have key : (mallocOver { c := c, fa := run init h } file line).isNull = true ↔ Designated h file line := by
+    rw [mallocOver_null_iff, ← fails_iff_designated]
+    simp [hnn, hms]
+  obtain ⟨a1, a2, a3, _⟩ := over_null_iff { c := c, fa := run init h } str n num size file line
+  rw [a1, a2, a3, key]
+  simp [hov]
+
+/-- **The countdown on top of an installed allocator** `a` (the failable one, or any other): the `k`-th allocating call
+    asks the null allocator iff `0 ≤ n ≤ k`, and `a` otherwise -/
+theorem countdown_keeps_installed_allocator (a : Alloc) (n : Int) (k : Nat) :
+    (mallocState (afterMallocs (setCountdown { cinit with cur := a } n) k)).cur =
+      if 0 ≤ n ∧ n ≤ ((k + 1 : Nat) : Int) then .null else a := by
+  obtain ⟨i1, i2, i3⟩ := afterMallocs_countdown_state_over a n (k + 1)
+  simp only [afterMallocs] at i1 i2 i3
+  by_cases h0 : n < 0
+  · rw [(i1 h0).2.1, if_neg (by omega)]
+  · by_cases h1 : ((k + 1 : Nat) : Int) < n
+    · rw [(i2 (by omega) h1).2.1, if_neg (by omega)]
+    · rw [(i3 (by omega) (by omega)).2.1, if_pos (by omega)]
+
+/-- once the countdown has expired, `cpputest_malloc_set_not_out_of_memory` re-installs the allocator that was
+    installed before -/
+theorem not_out_of_memory_reinstalls (a : Alloc) (n : Int) (k : Nat) (h0 : 0 ≤ n) (hk : n ≤ (k : Int)) :
+    (setNotOutOfMemory (afterMallocs (setCountdown { cinit with cur := a } n) k)).cur = a ∧
+    (setNotOutOfMemory (afterMallocs (setCountdown { cinit with cur := a } n) k)).orig = none ∧
+    (setNotOutOfMemory (afterMallocs (setCountdown { cinit with cur := a } n) k)).counter = Gen.Failable.noCountdown := by
+  obtain ⟨_, _, i3⟩ := afterMallocs_countdown_state_over a n k
+  obtain ⟨_, _, z⟩ := i3 h0 hk
+  simp [setNotOutOfMemory, z]
+
+/-- observation (outside the property, see ASSUMPTIONS): called while nothing is simulated,
+    `cpputest_malloc_set_not_out_of_memory` makes the DEFAULT allocator current, i.e. it uninstalls an installed one -/
+theorem stray_not_out_of_memory_resets (c : CState) (h : c.orig = none) : (setNotOutOfMemory c).cur = .normal := by
+  simp [setNotOutOfMemory, h]
+
+/-! ## whole histories -/
+
+theorem outcomes_run : ∀ (h pre : List Op), outcomes (run init pre) h = designatedOutcomes pre h
+  | [], _ => rfl
+  | op :: h, pre => by
+    have hstep : step (run init pre) op = run init (pre ++ [op]) := by rw [run_append]; rfl
+    have ih := outcomes_run h (pre ++ [op])
+    cases op with
+    | alloc f l =>
+      have hs : allocState (run init pre) f l = run init (pre ++ [Op.alloc f l]) := hstep
+      have hb : allocFails (run init pre) f l = designatedB pre f l := by
+        rw [Bool.eq_iff_iff, fails_iff_designated, designatedB_iff]
+      simp only [outcomes, designatedOutcomes, hs, ih, hb]
+    | failNum n => simp only [outcomes, designatedOutcomes, hstep, ih]
+    | failAt n f l => simp only [outcomes, designatedOutcomes, hstep, ih]
+    | check => simp only [outcomes, designatedOutcomes, hstep, ih]
+    | clear => simp only [outcomes, designatedOutcomes, hstep, ih]
+
+/-- **End to end.**  The NULL / non-NULL results of ALL allocations of a whole history — any interleaving of
+    designations, allocations at any locations, checks and clears, of any length — are exactly what the history of
+    calls designates: the list of results computed by the allocator equals the list computed from the calls alone. -/
+theorem whole_history_outcomes (h : List Op) : outcomes init h = designatedOutcomes [] h := outcomes_run h []
+
+theorem failures_le_fired : ∀ (h : List Op) (s : State), (outcomes s h).count true ≤ (firedIds s h).length
+  | [], _ => by simp [outcomes, firedIds]
+  | op :: h, s => by
+    cases op with
+    | alloc f l =>
+      have ih := failures_le_fired h (allocState s f l)
+      simp only [outcomes, firedIds, List.count_cons, List.length_append, List.length_map]
+      by_cases hf : allocFails s f l = true
+      · have : allocFired s f l ≠ [] := (fails_iff_some_node_consumed s f l).mp hf
+        have : 1 ≤ (allocFired s f l).length := by
+          cases hl : allocFired s f l with
+          | nil => exact absurd hl this
+          | cons a t => simp
+        simp [hf]; omega
+      · simp [hf]; omega
+    | failNum n => simpa only [outcomes, firedIds] using failures_le_fired h _
+    | failAt n f l => simpa only [outcomes, firedIds] using failures_le_fired h _
+    | check => simpa only [outcomes, firedIds] using failures_le_fired h _
+    | clear => simpa only [outcomes, firedIds] using failures_le_fired h _
+
+theorem nextId_counts_designations : ∀ (h : List Op) (s : State),
+    (run s h).nextId = s.nextId + h.countP Op.isDesignation
+  | [], _ => by simp [run]
+  | op :: h, s => by
+    rw [run_cons, nextId_counts_designations h (step s op), List.countP_cons]
+    cases op <;> simp [step, failAllocNumber, failNthAllocAt, allocState, clear, Op.isDesignation] <;> omega
+
+/-- **No history fails more allocations than it designates**: every failing allocation consumes at least one
+    designation and no designation is consumed twice. -/
+theorem failures_le_designations (h : List Op) :
+    (outcomes init h).count true ≤ h.countP Op.isDesignation := by
+  have h1 := failures_le_fired h init
+  have h2 := (fired_designation_consumed_once h).length_eq
+  have h3 := nextId_counts_designations h init
+  have hi : init.nextId = 0 := rfl
+  simp only [List.length_append, List.length_range', List.length_map] at h2
+  rw [hi] at h3
+  omega
+
+/-- without any designation no allocation of the history fails -/
+theorem no_designation_no_failure (h : List Op) (hd : ∀ op ∈ h, op.isDesignation = false) :
+    ∀ b ∈ outcomes init h, b = false := by
+  have h0 : h.countP Op.isDesignation = 0 := by
+    rw [List.countP_eq_zero]; intro op hop; simp [hd op hop]
+  have := failures_le_designations h
+  rw [h0] at this
+  intro b hb
+  cases b with
+  | false => rfl
+  | true => exact absurd (List.count_pos_iff.mpr hb) (by omega)
+
+/-- the failure text of `checkAllFailedAllocsWereDone`, as regenerated: the format strings of the current source
+    filled with the head designation -/
+theorem check_text (f : String) (l : Nat) (n : Int) :
+    checkText .ok = none ∧
+    checkText (.neverDoneAt f l) =
+      some ((Gen.Failable.checkFormatAt.replace "%s" f).replace "%d" (toString (int32 l))) ∧
+    checkText (.neverDoneNumber n) = some (Gen.Failable.checkFormatNumber.replace "%d" (toString n)) ∧
+    (l < 2 ^ 31 → int32 l = (l : Int)) := by
+  refine ⟨rfl, rfl, rfl, ?_⟩
+  intro hl
+  unfold int32
+  have : l % 2 ^ 32 = l := Nat.mod_eq_of_lt (by omega)
+  rw [this, if_pos hl]
+
 /-! ## non-vacuity -/
 
 /-- the two old defects as histories: designating the 2nd allocation at foo.c:10 does not fail the
@@ -409,6 +810,21 @@ example : Designated [.failNum 2, .alloc "a.c" 1] "b.c" 7 := by
   rw [← designatedB_iff]; decide
 example : unfired [.failNum 5, .failAt 1 "a.c" 3, .alloc "a.c" 3] = [.failNum 5] := by decide
 example : check (run init [.failNum 5, .failAt 1 "a.c" 3, .alloc "a.c" 3]) = .neverDoneNumber 5 := by decide
+example : genFails (genRun default Gen.Failable.init [.failAt 2 "a.c" 10, .alloc "b.c" 10, .alloc "a.c" 10]) "a.c" 10 = true ∧
+    genFails (genRun default Gen.Failable.init [.failAt 2 "a.c" 10, .alloc "b.c" 10, .alloc "a.c" 10]) "b.c" 10 = false := by decide
+example : Gen.Failable.check (genRun default Gen.Failable.init [.failNum 5, .failAt 1 "a.c" 3, .alloc "a.c" 3]) = .neverDoneNumber 5 := by decide
+example : Gen.Failable.mallocNull (genAfterMallocs (Gen.Failable.setCountdown Gen.Failable.cinit 3) 1) = false ∧
+    Gen.Failable.mallocNull (genAfterMallocs (Gen.Failable.setCountdown Gen.Failable.cinit 3) 2) = true := by decide
+example : Gen.Failable.callocOverflows 4294967296 4294967296 = true ∧ Gen.Failable.callocOverflows 4294967295 4294967297 = false := by decide
+example : (strdupOver { c := { cinit with cur := .failable }, fa := run init [.failNum 2, .alloc "<unknown>" 0] } [104, 105] "<unknown>" 0).2 = none ∧
+    (strdupOver { c := { cinit with cur := .failable }, fa := run init [.failNum 3, .alloc "<unknown>" 0] } [104, 105] "<unknown>" 0).2 = some [104, 105, 0] := by decide
+example : (mallocOver { c := setOutOfMemory { cinit with cur := .failable }, fa := run init [.failNum 1] } "a.c" 1).isNull = true ∧
+    (mallocOver { c := setOutOfMemory { cinit with cur := .failable }, fa := run init [.failNum 1] } "a.c" 1).st.fa = run init [.failNum 1] := by decide
+example : outcomes init [.failAt 2 "a.c" 1, .alloc "a.c" 1, .failNum 3, .alloc "b.c" 1, .alloc "a.c" 1, .alloc "a.c" 1]
+    = [false, false, true, false] := by decide
+example : designatedOutcomes [] [.failAt 2 "a.c" 1, .alloc "a.c" 1, .failNum 3, .alloc "b.c" 1, .alloc "a.c" 1, .alloc "a.c" 1]
+    = [false, false, true, false] := by decide
+example : int32 10 = 10 ∧ int32 4294967295 = -1 := by decide
 example : mallocNull (afterMallocs (setCountdown cinit 3) 1) = false ∧
     mallocNull (afterMallocs (setCountdown cinit 3) 2) = true := by decide
 
